@@ -132,6 +132,13 @@ func (f *Frame) instr(in ssa.Instruction) {
 	case *ssa.Alloc:
 		et := x.Type().Underlying().(*types.Pointer).Elem()
 		obj := f.allocObj()
+		if !x.Heap {
+			// go/ssa: the address of this variable never escapes its function
+			if f.u.privateObjs == nil {
+				f.u.privateObjs = map[int64]bool{}
+			}
+			f.u.privateObjs[freshBase+f.u.objCtr] = true
+		}
 		f.zeroInit(obj, tb.BV(64, L.Size(et)), L.ElemSorts(et))
 		f.set(x, []*Term{obj, tb.BV(64, 0)})
 	case *ssa.UnOp:
